@@ -349,6 +349,10 @@ class Flatten2Reshape(RewriteRuleClassBase):
         # Verify if it is possible to apply rule.
         if np.count_nonzero(self._new_shape == -1) > 1:
             return check_result.fail("Impossible to compute new shape.")
+        # A zero in the target shape of Reshape copies the input dimension at that
+        # position: only the first dimension of Flatten(axis=1) can be expressed this way.
+        if (self._new_shape[0] == 0 and axis != 1) or self._new_shape[1] == 0:
+            return check_result.fail("A zero-sized dimension cannot be expressed by Reshape.")
         return check_result
 
 
